@@ -47,6 +47,7 @@ type Fx struct {
 	litVals      map[*ast.FuncLit]string
 	curPos       token.Pos
 	loadKey      string
+	noGuard      bool
 }
 
 type unsupported struct{ msg string }
@@ -216,6 +217,12 @@ func chanElem(t types.Type) types.Type {
 func (fx *Fx) declVar(st *State, obj types.Object, v Val) {
 	if fx.c.boxedVars[obj] {
 		// cell allocated on the heap
+		if s, named, isPtr := structOf(obj.Type()); s != nil && !isPtr && !opaqueNamed(named) {
+			r := st.allocRef()
+			fx.writeStructAt(st, r, obj.Type(), v)
+			st.vars[obj] = r
+			return
+		}
 		r := st.allocRef()
 		key := "P:" + typeKey(obj.Type())
 		srt := fx.c.sortOf(obj.Type())
@@ -625,6 +632,13 @@ func (fx *Fx) execSelect(st *State, s *ast.SelectStmt) {
 		cc := p.cc
 		switch c := cc.Comm.(type) {
 		case nil:
+			// default is taken only when no case is ready; a receive from a closed channel is always ready
+			for _, q := range preps {
+				switch q.cc.Comm.(type) {
+				case *ast.ExprStmt, *ast.AssignStmt:
+					t.assume(fmt.Sprintf("(=> (not (= %s 0)) (not (select %s %s)))", q.ch.T, t.heap("CC", "(Array Int Bool)"), q.ch.T))
+				}
+			}
 		case *ast.SendStmt:
 			// a nil channel is never ready
 			t.assume(fmt.Sprintf("(not (= %s 0))", p.ch.T))
